@@ -315,7 +315,8 @@ fn cases(tier: Tier) -> Vec<Case> {
     out
 }
 
-/// A second vocabulary: a component with the same short type name in another module, an
+/// A second vocabulary: a component with the same short type name in another module (replicated,
+/// with sparse-set storage), an
 /// unreplicated sparse-set component (archetypes that differ only by it share a table) and
 /// disabled entities. Rules: `Ra` and `other::Ra`. Worlds: two entities, every subset of
 /// {Ra, other::Ra, sparse, Disabled} and the marker on each.
@@ -323,6 +324,7 @@ mod other {
     use super::*;
     #[derive(Component, Default, Deserialize, Reflect, Serialize, Clone, PartialEq, Debug)]
     #[reflect(Component)]
+    #[component(storage = "SparseSet")]
     pub struct Ra(pub u8);
 }
 #[derive(Component, Default)]
